@@ -486,44 +486,20 @@ def ParkSim (isLimit : ε → Bool) (a b : σ × Option ε) : Prop :=
 @[simp] theorem firstSome_some {β : Type} (a : β) (b : Option β) : firstSome (some a) b = some a := rfl
 @[simp] theorem firstSome_none {β : Type} (b : Option β) : firstSome none b = b := by cases b <;> rfl
 
-theorem parkT_step_none (t : Trans σ ε ρ) (parks : σ → Except ε ρ → Option ε) (fp : σ → Option ε) (drop : Bool)
-    (a : σ) (pa : Option ε) (x : Except ε ρ) (h : firstSome pa (parks a x) = none) :
-    (parkT t parks fp drop).step (a, pa) x = (((t.step a x).1, none), (t.step a x).2) := by
-  simp only [parkT, h]
-
-theorem parkT_step_some_nil (t : Trans σ ε ρ) (parks : σ → Except ε ρ → Option ε) (fp : σ → Option ε) (drop : Bool)
-    (a : σ) (pa : Option ε) (x : Except ε ρ) (e : ε) (h : firstSome pa (parks a x) = some e)
-    (ho : (t.step a x).2 = []) :
-    (parkT t parks fp drop).step (a, pa) x = (((t.step a x).1, some e), []) := by
-  simp only [parkT, h, ho]
-
-theorem parkT_step_some_cons (t : Trans σ ε ρ) (parks : σ → Except ε ρ → Option ε) (fp : σ → Option ε) (drop : Bool)
-    (a : σ) (pa : Option ε) (x : Except ε ρ) (e : ε) (y : Except ε ρ) (ys : Stream ε ρ)
-    (h : firstSome pa (parks a x) = some e) (ho : (t.step a x).2 = y :: ys) :
-    (parkT t parks fp drop).step (a, pa) x = (((t.step a x).1, none), .error e :: ys) := by
-  simp only [parkT, h, ho]
-
-/-- an operator that never says `done` and yields nothing at the end owes a pending failure as its
-    next item, whatever input follows -/
-theorem parkT_owes (t : Trans σ ε ρ) (hnd : ∀ st, t.done st = false) (hfl : ∀ st, t.flush st = [])
-    (parks : σ → Except ε ρ → Option ε) (e : ε) :
-    ∀ (xs : Stream ε ρ) (st : σ), cut ((parkT t parks noFlushParks false).run (st, some e) xs) = [.error e] := by
-  intro xs
-  induction xs with
+/-- an operator that never says `done` and answers an `Err` item with that error first owes a
+    pending failure as its very next item, whatever input follows -/
+theorem parkT_owes (t : Trans σ ε ρ) (hnd : ∀ st, t.done st = false)
+    (hfwd : ∀ st e, ∃ rest, (t.step st (.error e)).2 = .error e :: rest)
+    (parks : σ → Except ε ρ → Option ε) (fp : σ → Option ε) (e : ε) (xs : Stream ε ρ) (st : σ) :
+    cut ((parkT t parks fp false).run (st, some e) xs) = [.error e] := by
+  obtain ⟨rest, he⟩ := hfwd st e
+  cases xs with
   | nil =>
-    intro st
     rw [Trans.run_nil]
-    simp [parkT, hnd st, hfl st, cut]
-  | cons x xs ih =>
-    intro st
-    rw [parkT_run_cons _ _ _ _ _ _ _ _ (hnd st)]
-    cases hout : (t.step st x).2 with
-    | nil =>
-      rw [parkT_step_some_nil _ _ _ _ _ _ _ e (by simp) hout]
-      simpa using ih _
-    | cons y ys =>
-      rw [parkT_step_some_cons _ _ _ _ _ _ _ e y ys (by simp) hout]
-      simp [cut]
+    simp [parkT, hnd st, he, cut]
+  | cons x xs =>
+    rw [parkT_run_cons _ _ _ _ _ _ _ _ (hnd st), parkT_step_pending]
+    simp [he, cut]
 
 theorem LimRel.nil_right (isLimit : ε → Bool) (a : Stream ε ρ) (h : LimRel isLimit a []) :
     a = [] ∨ ∃ e rest, a = .error e :: rest ∧ isLimit e = true := by
@@ -542,7 +518,7 @@ theorem LimRel.nil_right (isLimit : ε → Bool) (a : Stream ε ρ) (h : LimRel 
     obtain ⟨_, ta, rfl⟩ := of_cut_eq_append_error a [] e hc
     exact ⟨e, ta, rfl, hl⟩
 
-/-- streaming operators (Project, Unwind): never `done`, nothing at the end -/
+/-- streaming operators (Project, Unwind, ProcedureCall): never `done`, nothing at the end -/
 theorem parkT_stream_stepRel (isLimit : ε → Bool) (tL tU : Trans σ ε ρ)
     (parksL parksU : σ → Except ε ρ → Option ε)
     (hndL : ∀ st, tL.done st = false) (hndU : ∀ st, tU.done st = false)
@@ -550,93 +526,93 @@ theorem parkT_stream_stepRel (isLimit : ε → Bool) (tL tU : Trans σ ε ρ)
     (hst : ∀ st x, (tL.step st x).1 = (tU.step st x).1)
     (hstep : ∀ st x, parksL st x = none → LimRel isLimit (tL.step st x).2 (tU.step st x).2 ∧
       (allOk (tL.step st x).2 = true → (tL.step st x).2 = (tU.step st x).2))
-    (hfwd : ∀ st e, ∃ rest, (tL.step st (.error e)).2 = .error e :: rest)
+    (hfwdL : ∀ st e, ∃ rest, (tL.step st (.error e)).2 = .error e :: rest)
+    (hfwdU : ∀ st e, ∃ rest, (tU.step st (.error e)).2 = .error e :: rest)
     (hperr : ∀ st e, parksL st (.error e) = none)
     (hpark : ∀ st x, parksL st x = parksU st x ∨ ∃ e, parksL st x = some e ∧ isLimit e = true) :
     StepRel isLimit (ParkSim isLimit) (parkT tL parksL noFlushParks false) (parkT tU parksU noFlushParks false) := by
-  -- what the two sides have to report with a step
-  have hf : ∀ (a : σ) (pa pb : Option ε) (x : Except ε ρ), (pa = pb ∨ ∃ e, pa = some e ∧ isLimit e = true) →
-      firstSome pa (parksL a x) = firstSome pb (parksU a x) ∨
-        ∃ e, firstSome pa (parksL a x) = some e ∧ isLimit e = true := by
-    intro a pa pb x hp
-    cases pa with
-    | some e =>
-      rcases hp with h | ⟨e', he', hl⟩
-      · left; rw [← h]; simp
-      · right; injection he' with he'; subst he'; exact ⟨e, by simp, hl⟩
-    | none =>
-      have hpb : pb = none := by
-        rcases hp with h | ⟨e', he', _⟩
-        · exact h.symm
-        · cases he'
-      subst hpb
-      simpa using hpark a x
   refine ⟨fun a b h => by simp [parkT, hndL, hndU], ?_, ?_, ?_⟩
   · -- step
     rintro ⟨a, pa⟩ ⟨b, pb⟩ x ⟨hab, hp⟩
     simp only at hab hp
     subst hab
-    cases hfL : firstSome pa (parksL a x) with
-    | none =>
-      have hpa : pa = none ∧ parksL a x = none := by
-        cases pa with
-        | some e => simp at hfL
-        | none => exact ⟨rfl, by simpa using hfL⟩
-      have hfU : firstSome pb (parksU a x) = none := by
-        rcases hf a pa pb x hp with h | ⟨e, he, _⟩
-        · rw [← h]; exact hfL
-        · rw [hfL] at he; cases he
-      obtain ⟨hrel, heq⟩ := hstep a x hpa.2
-      rw [parkT_step_none _ _ _ _ _ _ _ hfL, parkT_step_none _ _ _ _ _ _ _ hfU]
-      left
-      exact ⟨hrel, fun ho => ⟨heq ho, hst a x, Or.inl rfl⟩⟩
+    cases pa with
     | some e =>
-      have hfU : firstSome pb (parksU a x) = some e ∨ isLimit e = true := by
-        rcases hf a pa pb x hp with h | ⟨e', he', hl⟩
-        · left; rw [← h]; exact hfL
-        · right; rw [hfL] at he'; injection he' with he'; subst he'; exact hl
-      cases hoL : (tL.step a x).2 with
-      | nil =>
-        rw [parkT_step_some_nil _ _ _ _ _ _ _ e hfL hoL]
-        by_cases hl : isLimit e = true
-        · -- nothing now, a limit error is owed
-          right; right
-          exact ⟨rfl, e, fun xs => parkT_owes tL hndL hflL parksL e xs _, Or.inl hl⟩
-        · have hfu : firstSome pb (parksU a x) = some e := by
-            rcases hfU with h | h
-            · exact h
-            · exact absurd h hl
-          cases hoU : (tU.step a x).2 with
-          | nil =>
-            rw [parkT_step_some_nil _ _ _ _ _ _ _ e hfu hoU]
-            left
-            exact ⟨.refl _ _, fun _ => ⟨rfl, hst a x, Or.inl rfl⟩⟩
-          | cons z zs =>
-            rw [parkT_step_some_cons _ _ _ _ _ _ _ e z zs hfu hoU]
-            right; right
-            exact ⟨rfl, e, fun xs => parkT_owes tL hndL hflL parksL e xs _, Or.inr ⟨zs, rfl⟩⟩
-      | cons y ys =>
-        rw [parkT_step_some_cons _ _ _ _ _ _ _ e y ys hfL hoL]
-        by_cases hl : isLimit e = true
-        · left; exact ⟨LimRel.limit_error isLimit e _ _ hl, fun h => by simp at h⟩
-        · have hfu : firstSome pb (parksU a x) = some e := by
-            rcases hfU with h | h
-            · exact h
-            · exact absurd h hl
-          cases hoU : (tU.step a x).2 with
-          | nil =>
-            rw [parkT_step_some_nil _ _ _ _ _ _ _ e hfu hoU]
-            right; left
-            exact ⟨[], e, ys, rfl, rfl, rfl, fun xs => parkT_owes tU hndU hflU parksU e xs _⟩
-          | cons z zs =>
-            rw [parkT_step_some_cons _ _ _ _ _ _ _ e z zs hfu hoU]
-            left
-            exact ⟨Or.inl (by simp [cut]), fun h => by simp at h⟩
+      -- the pending failure arrives with this pull on the limited side
+      obtain ⟨rL, hL⟩ := hfwdL a e
+      rw [parkT_step_pending, hL]
+      left
+      by_cases hl : isLimit e = true
+      · exact ⟨LimRel.limit_error isLimit e _ _ hl, fun h => by simp at h⟩
+      · have hpb : pb = some e := by
+          rcases hp with h | ⟨e', he', hl'⟩
+          · exact h.symm
+          · injection he' with he'; subst he'; exact absurd hl' hl
+        subst hpb
+        obtain ⟨rU, hU⟩ := hfwdU a e
+        rw [parkT_step_pending, hU]
+        exact ⟨Or.inl (by simp [cut]), fun h => by simp at h⟩
+    | none =>
+      have hpb : pb = none := by
+        rcases hp with h | ⟨e', he', _⟩
+        · exact h.symm
+        · cases he'
+      subst hpb
+      cases hpL : parksL a x with
+      | none =>
+        have hpU : parksU a x = none := by
+          rcases hpark a x with h | ⟨e, he, _⟩
+          · rw [← h]; exact hpL
+          · rw [hpL] at he; cases he
+        obtain ⟨hrel, heq⟩ := hstep a x hpL
+        rw [parkT_step_none _ _ _ _ _ _ hpL, parkT_step_none _ _ _ _ _ _ hpU]
+        left
+        exact ⟨hrel, fun ho => ⟨heq ho, hst a x, Or.inl rfl⟩⟩
+      | some e =>
+        have hfU : parksU a x = some e ∨ isLimit e = true := by
+          rcases hpark a x with h | ⟨e', he', hl⟩
+          · left; rw [← h]; exact hpL
+          · right; rw [hpL] at he'; injection he' with he'; subst he'; exact hl
+        cases hoL : (tL.step a x).2 with
+        | nil =>
+          rw [parkT_step_some_nil _ _ _ _ _ _ e hpL hoL]
+          by_cases hl : isLimit e = true
+          · right; right
+            exact ⟨rfl, e, fun xs => parkT_owes tL hndL hfwdL parksL _ e xs _, Or.inl hl⟩
+          · have hfu : parksU a x = some e := by
+              rcases hfU with h | h
+              · exact h
+              · exact absurd h hl
+            cases hoU : (tU.step a x).2 with
+            | nil =>
+              rw [parkT_step_some_nil _ _ _ _ _ _ e hfu hoU]
+              left
+              exact ⟨.refl _ _, fun _ => ⟨rfl, hst a x, Or.inl rfl⟩⟩
+            | cons z zs =>
+              rw [parkT_step_some_cons _ _ _ _ _ _ e z zs hfu hoU]
+              right; right
+              exact ⟨rfl, e, fun xs => parkT_owes tL hndL hfwdL parksL _ e xs _, Or.inr ⟨zs, rfl⟩⟩
+        | cons y ys =>
+          rw [parkT_step_some_cons _ _ _ _ _ _ e y ys hpL hoL]
+          by_cases hl : isLimit e = true
+          · left; exact ⟨LimRel.limit_error isLimit e _ _ hl, fun h => by simp at h⟩
+          · have hfu : parksU a x = some e := by
+              rcases hfU with h | h
+              · exact h
+              · exact absurd h hl
+            cases hoU : (tU.step a x).2 with
+            | nil =>
+              rw [parkT_step_some_nil _ _ _ _ _ _ e hfu hoU]
+              right; left
+              exact ⟨[], e, ys, rfl, rfl, rfl, fun xs => parkT_owes tU hndU hfwdU parksU _ e xs _⟩
+            | cons z zs =>
+              rw [parkT_step_some_cons _ _ _ _ _ _ e z zs hfu hoU]
+              left
+              exact ⟨Or.inl (by simp [cut]), fun h => by simp at h⟩
   · -- flush
     rintro ⟨a, pa⟩ ⟨b, pb⟩ ⟨hab, hp⟩
     simp only at hab hp
     subst hab
-    simp only [parkT, noFlushParks, hflL, hflU]
     cases pa with
     | none =>
       have hpb : pb = none := by
@@ -644,30 +620,39 @@ theorem parkT_stream_stepRel (isLimit : ε → Bool) (tL tU : Trans σ ε ρ)
         · exact h.symm
         · cases he'
       subst hpb
+      simp only [parkT, noFlushParks, hflL, hflU]
       exact .refl _ _
     | some e =>
-      rcases hp with h | ⟨e', he', hl⟩
-      · rw [← h]; exact .refl _ _
-      · injection he' with he'; subst he'
-        simp only [firstSome_some]
-        exact LimRel.limit_error isLimit _ _ _ hl
+      obtain ⟨rL, hL⟩ := hfwdL a e
+      simp only [parkT, Bool.false_eq_true, if_false, hL]
+      by_cases hl : isLimit e = true
+      · exact LimRel.limit_error isLimit e _ _ hl
+      · have hpb : pb = some e := by
+          rcases hp with h | ⟨e', he', hl'⟩
+          · exact h.symm
+          · injection he' with he'; subst he'; exact absurd hl' hl
+        subst hpb
+        obtain ⟨rU, hU⟩ := hfwdU a e
+        simp only [hU]
+        exact Or.inl (by simp [cut])
   · -- an `Err` item
     rintro ⟨a, pa⟩ ⟨b, pb⟩ e ⟨hab, hp⟩ _
     simp only at hab hp
     subst hab
-    obtain ⟨rest, he⟩ := hfwd a e
     cases pa with
     | none =>
-      rw [parkT_step_none _ _ _ _ _ _ _ (by simp [hperr a e])]
+      obtain ⟨rest, he⟩ := hfwdL a e
+      rw [parkT_step_none _ _ _ _ _ _ (hperr a e)]
       exact ⟨e, rest, he, Or.inl rfl⟩
     | some e2 =>
-      rw [parkT_step_some_cons _ _ _ _ _ _ _ e2 _ rest (by simp) he]
+      obtain ⟨rest, he⟩ := hfwdL a e2
+      rw [parkT_step_pending, he]
       refine ⟨e2, rest, rfl, ?_⟩
       rcases hp with h | ⟨e', he', hl⟩
       · right; right
         intro xs
         rw [← h]
-        exact parkT_owes tU hndU hflU parksU e2 xs _
+        exact parkT_owes tU hndU hfwdU parksU _ e2 xs _
       · injection he' with he'; subst he'; exact Or.inr (Or.inl hl)
 
 /-- blocking operators (OrderBy, Aggregate): failures are parked only by the final work -/
@@ -684,14 +669,14 @@ theorem parkT_block_stepRel (isLimit : ε → Bool) (tL tU : Trans σ ε ρ) (h0
     subst hpa
     obtain ⟨hrel, heq⟩ := h0.step a x
     left
-    rw [parkT_step_none _ _ _ _ _ _ _ (by simp), parkT_step_none _ _ _ _ _ _ _ (by simp)]
+    rw [parkT_step_none _ _ _ _ _ _ rfl, parkT_step_none _ _ _ _ _ _ rfl]
     refine ⟨hrel, fun ho => ?_⟩
     have := heq ho
     exact ⟨by rw [this], by rw [this], rfl⟩
   · rintro ⟨a, pa⟩ _ ⟨rfl, hpa⟩
     simp only at hpa
     subst hpa
-    simp only [parkT, firstSome_none]
+    simp only [parkT]
     rcases hfp a with h | ⟨e, he, hl⟩
     · cases hL : fpL a with
       | none =>
@@ -707,8 +692,26 @@ theorem parkT_block_stepRel (isLimit : ε → Bool) (tL tU : Trans σ ε ρ) (h0
     simp only at hpa
     subst hpa
     obtain ⟨e', rest, he, hl⟩ := h0.fwd a e hd
-    rw [parkT_step_none _ _ _ _ _ _ _ (by simp)]
+    rw [parkT_step_none _ _ _ _ _ _ rfl]
     exact ⟨e', rest, he, hl.elim Or.inl (fun x => Or.inr (Or.inl x))⟩
+
+/-- `mapM` in `Except` over the elements of a list: equal results, or a limit error -/
+theorem mapM_lim_mem (isLimit : ε → Bool) {β γ : Type} (fL fU : β → Except ε γ) (xs : List β)
+    (h : ∀ x ∈ xs, fL x = fU x ∨ ∃ e, fL x = .error e ∧ isLimit e = true) :
+    xs.mapM fL = xs.mapM fU ∨ ∃ e, xs.mapM fL = .error e ∧ isLimit e = true := by
+  induction xs with
+  | nil => left; rfl
+  | cons x xs ih =>
+    simp only [List.mapM_cons]
+    rcases h x List.mem_cons_self with heq | ⟨e, he, hl⟩
+    · rw [heq]
+      cases hx : fU x with
+      | error e0 => left; rfl
+      | ok y =>
+        rcases ih (fun z hz => h z (List.mem_cons_of_mem _ hz)) with ih | ⟨e, he, hl⟩
+        · left; simp only [bind, Except.bind, ih]
+        · right; exact ⟨e, by simp only [bind, Except.bind, he], hl⟩
+    · right; exact ⟨e, by simp only [he, bind, Except.bind], hl⟩
 
 theorem findSome_lim (isLimit : ε → Bool) {β : Type} (fL fU : β → Option ε)
     (h : ∀ x, fL x = fU x ∨ ∃ e, fL x = some e ∧ isLimit e = true) (xs : List β) :
@@ -750,6 +753,122 @@ theorem aggregateFlushParks_rel (isLimit : ε → Bool) (S : Sem χ ρ ν ε κ 
   findSome_lim isLimit _ _ (fun g => hS.aggPark aggs env g.2) _
 
 
+/-! ### ProcedureCall, IndexSeek, OptionalWhereFixup -/
+
+omit [DecidableEq κ] in
+theorem procRow_limRel (isLimit : ε → Bool) (S : Sem χ ρ ν ε κ α) (L : LimEnv ε)
+    (hS : S.LimitLawful L.coll isLimit) (env : ρ) (name : String) (args : List χ) (r : ρ)
+    (hnp : ∀ a ∈ args, S.park L.coll a env r = none) :
+    LimRel isLimit (procRow S L env name args r) (procRow S LimEnv.unlimited env name args r) := by
+  simp only [procRow, LimEnv.unlimited]
+  rcases mapM_lim_mem isLimit (fun a => S.eval L.coll a env r) (fun a => S.eval (fun _ _ => none) a env r) args
+      (fun a ha => hS.eval a env r (hnp a ha)) with h | ⟨e, he, hl⟩
+  · rw [h]; exact .refl _ _
+  · rw [he]; exact LimRel.limit_error isLimit e _ _ hl
+
+omit [DecidableEq κ] in
+theorem seek_limRel (isLimit : ε → Bool) (S : Sem χ ρ ν ε κ α) (L : LimEnv ε)
+    (hS : S.LimitLawful L.coll isLimit) (env : ρ) (key : String) (value : χ) (fL fU : Stream ε ρ)
+    (h : LimRel isLimit fL fU) :
+    LimRel isLimit
+      (parkHead (S.park L.coll value env S.empty) false (seekBody S L env key value fL))
+      (parkHead (S.park LimEnv.unlimited.coll value env S.empty) false
+        (seekBody S LimEnv.unlimited env key value fU)) := by
+  simp only [LimEnv.unlimited]
+  rcases hS.park value env S.empty with hp | ⟨er, hp, hl⟩
+  · rw [hp]
+    cases hpu : S.park (fun _ _ => none) value env S.empty with
+    | some e =>
+      left
+      cases seekBody S L env key value fL <;>
+        cases seekBody S ⟨fun _ _ => none, fun _ => none, fun _ _ => none, fun _ _ => none⟩ env key value fU <;>
+        simp [parkHead, cut]
+    | none =>
+      simp only [parkHead, seekBody]
+      rcases hS.eval value env S.empty (hp.trans hpu) with he | ⟨er, he, hl⟩
+      · rw [he]
+        cases S.eval (fun _ _ => none) value env S.empty with
+        | error e => exact .refl _ _
+        | ok v =>
+          simp only
+          cases S.lookup key v with
+          | some rows => exact .refl _ _
+          | none => exact h
+      · rw [he]; exact LimRel.limit_error isLimit er _ _ hl
+  · rw [hp]
+    cases seekBody S L env key value fL <;> exact LimRel.limit_error isLimit er _ _ hl
+
+omit [DecidableEq κ] in
+theorem loopT_stepRel (isLimit : ε → Bool) (L : LimEnv ε) (hL : L.Lawful isLimit) (ts : Site) (stage : String) :
+    StepRel0 isLimit (loopT (ρ := ρ) L ts stage) (loopT LimEnv.unlimited ts stage) where
+  done _ := rfl
+  flush _ := .refl _ _
+  fwd st e _ := by
+    simp only [loopT]
+    cases ht : L.time ts st.n with
+    | some err => exact ⟨err, [], rfl, Or.inr (hL.time _ _ _ ht)⟩
+    | none => exact ⟨e, [], rfl, Or.inl rfl⟩
+  step st x := by
+    simp only [loopT, LimEnv.unlimited]
+    cases ht : L.time ts st.n with
+    | some err => exact ⟨LimRel.limit_error isLimit err _ _ (hL.time _ _ _ ht), fun h => by simp at h⟩
+    | none =>
+      cases x with
+      | error e => exact ⟨.refl _ _, fun _ => rfl⟩
+      | ok r =>
+        simp only
+        cases hc : L.coll stage (st.rows + 1) with
+        | none => exact ⟨.refl _ _, fun _ => rfl⟩
+        | some err => exact ⟨LimRel.limit_error isLimit err _ _ (hL.coll _ _ _ hc), fun h => by simp at h⟩
+
+omit [DecidableEq κ] in
+theorem fixupMerge_lim (isLimit : ε → Bool) (S : Sem χ ρ ν ε κ α) (L : LimEnv ε) (hL : L.Lawful isLimit)
+    (site : Site) (nulls : List String) (filtered : List ρ) (os : List ρ) : ∀ (i n : Nat),
+    fixupMerge S L site nulls filtered i n os = fixupMerge S LimEnv.unlimited site nulls filtered i n os ∨
+      ∃ e, fixupMerge S L site nulls filtered i n os = .error e ∧ isLimit e = true := by
+  induction os with
+  | nil => intro i n; left; rfl
+  | cons o os ih =>
+    intro i n
+    simp only [fixupMerge, LimEnv.unlimited]
+    cases ht : L.time (.inner (.inner (.inner site))) i with
+    | some e => right; exact ⟨e, rfl, hL.time _ _ _ ht⟩
+    | none =>
+      simp only
+      cases hc : L.coll "OptionalWhereFixup.output" _ with
+      | some e => right; exact ⟨e, rfl, hL.coll _ _ _ hc⟩
+      | none =>
+        simp only
+        rcases ih (i + 1) _ with h | ⟨e, he, hl⟩
+        · left; rw [h]; rfl
+        · right; rw [he]; exact ⟨e, rfl, hl⟩
+
+omit [DecidableEq κ] in
+theorem fixupBody_limRel (isLimit : ε → Bool) (S : Sem χ ρ ν ε κ α) (Q : Quirks) (hd : ∀ k, Q.dropsErr k = false)
+    (L : LimEnv ε) (hL : L.Lawful isLimit) (site : Site) (nulls : List String)
+    (oL oU fL fU : Stream ε ρ) (ho : LimRel isLimit oL oU) (hf : LimRel isLimit fL fU) :
+    LimRel isLimit (fixupBody S Q L site nulls oL fL) (fixupBody S Q LimEnv.unlimited site nulls oU fU) := by
+  simp only [fixupBody, hd, dropErrT_false]
+  rcases ((loopT_stepRel isLimit L hL (.inner site) "OptionalWhereFixup.outer").run ⟨0, 0, false⟩ _ _ ho).collect isLimit
+    with hc | ⟨e, he, hl⟩
+  · rw [hc]
+    cases collect ((loopT LimEnv.unlimited (.inner site) "OptionalWhereFixup.outer").run ⟨0, 0, false⟩ oU) with
+    | error e => exact .refl _ _
+    | ok orows =>
+      simp only
+      rcases ((loopT_stepRel isLimit L hL (.inner (.inner site)) "OptionalWhereFixup.filtered").run
+        ⟨0, 0, false⟩ _ _ hf).collect isLimit with hc2 | ⟨e, he, hl⟩
+      · rw [hc2]
+        cases collect ((loopT LimEnv.unlimited (.inner (.inner site)) "OptionalWhereFixup.filtered").run ⟨0, 0, false⟩ fU) with
+        | error e => exact .refl _ _
+        | ok frows =>
+          simp only
+          rcases fixupMerge_lim isLimit S L hL site nulls frows orows 0 0 with hm | ⟨e, he, hl⟩
+          · rw [hm]; exact .refl _ _
+          · rw [he]; exact LimRel.limit_error isLimit e _ _ hl
+      · rw [he]; exact LimRel.limit_error isLimit e _ _ hl
+  · rw [he]; exact LimRel.limit_error isLimit e _ _ hl
+
 end ops
 
 /-! ### the tree -/
@@ -763,22 +882,52 @@ theorem runL_limRel (isLimit : ε → Bool) (S : Sem χ ρ ν ε κ α) (Q : Qui
     (L : LimEnv ε) (hL : L.Lawful isLimit) (hS : S.LimitLawful L.coll isLimit) (p : Plan χ ρ ε α) :
     ∀ (site : Site) (env : ρ),
       LimRel isLimit (runL S Q L site env p) (runL S Q LimEnv.unlimited site env p) := by
-  obtain ⟨hq1, hq2, hq3, hq4, hq5, hq6⟩ := hq
+  obtain ⟨hq1, hq2, hq3, hq4, hq5, hq6, hq7⟩ := hq
+  have hd := Quirks.dropsErr_of_nil Q hq7
   induction p with
-  | source items => intro site env; exact guard_limRel isLimit L hL site _ _ (.refl _ _)
+  | scan rows => intro site env; exact guard_limRel isLimit L hL site _ _ (.refl _ _)
+  | fail e => intro site env; exact guard_limRel isLimit L hL site _ _ (.refl _ _)
   | arg => intro site env; exact guard_limRel isLimit L hL site _ _ (.refl _ _)
+  | indexSeek key value fb ih =>
+    intro site env
+    simp only [runL, hq6]
+    exact guard_limRel isLimit L hL site _ _ (seek_limRel isLimit S L hS env key value _ _ (ih _ _))
+  | procedureCall name args inp ih =>
+    intro site env
+    simp only [runL, hq6, hd, dropErrT_false]
+    refine guard_limRel isLimit L hL site _ _ ((parkT_stream_stepRel isLimit
+      (flatMapT (fun _ r => procRow S L env name args r)) (flatMapT (fun _ r => procRow S LimEnv.unlimited env name args r))
+      (rowParks S L env args) (rowParks S LimEnv.unlimited env args)
+      (fun _ => rfl) (fun _ => rfl)
+      (fun _ => rfl) (fun _ => rfl) (fun _ x => by cases x <;> rfl) ?_ (fun _ e => ⟨[], rfl⟩) (fun _ e => ⟨[], rfl⟩) (fun _ _ => rfl)
+      (fun st x => rowParks_rel isLimit S L hS env _ st x)).run _ _ ⟨rfl, Or.inl rfl⟩ _ _ (ih _ _))
+    intro st x hnp
+    cases x with
+    | error e => exact ⟨.refl _ _, fun _ => rfl⟩
+    | ok r =>
+      have hnp' : ∀ a ∈ args, S.park L.coll a env r = none := by
+        intro a ha
+        exact (List.findSome?_eq_none_iff.1 hnp) a ha
+      have hrel := procRow_limRel isLimit S L hS env name args r hnp'
+      exact ⟨hrel, fun ho => hrel.eq_of_allOk isLimit _ _ ho⟩
+  | fixup nulls outer filtered iho ihf =>
+    intro site env
+    simp only [runL]
+    exact guard_limRel isLimit L hL site _ _
+      (fixupBody_limRel isLimit S Q hd L hL site nulls _ _ _ _ (iho _ _) (ihf _ _))
   | filter pred inp ih =>
     intro site env
+    simp only [runL, hd, dropErrT_false]
     exact guard_limRel isLimit L hL site _ _
       ((mapT_stepRel isLimit _ _ (filterRow_limRel isLimit S Q L hS env pred)).run () _ _ (ih _ _))
   | project projs inp ih =>
     intro site env
-    simp only [runL, hq6]
+    simp only [runL, hq6, hd, dropErrT_false]
     refine guard_limRel isLimit L hL site _ _ ((parkT_stream_stepRel isLimit
       (projectT S L env projs) (projectT S LimEnv.unlimited env projs)
       (rowParks S L env (projs.map (·.2))) (rowParks S LimEnv.unlimited env (projs.map (·.2)))
       (fun _ => rfl) (fun _ => rfl)
-      (fun _ => rfl) (fun _ => rfl) (fun _ _ => rfl) ?_ (fun _ e => ⟨[], rfl⟩) (fun _ _ => rfl)
+      (fun _ => rfl) (fun _ => rfl) (fun _ _ => rfl) ?_ (fun _ e => ⟨[], rfl⟩) (fun _ e => ⟨[], rfl⟩) (fun _ _ => rfl)
       (fun st x => rowParks_rel isLimit S L hS env _ st x)).run _ _ ⟨rfl, Or.inl rfl⟩ _ _ (ih _ _))
     intro st x hnp
     cases x with
@@ -800,12 +949,12 @@ theorem runL_limRel (isLimit : ε → Bool) (S : Sem χ ρ ν ε κ α) (Q : Qui
       ((StepRel0.same isLimit (distinctT S false) (fun _ e _ => ⟨[], rfl⟩)).run [] _ _ (ih _ _))
   | unwind e alias inp ih =>
     intro site env
-    simp only [runL, hq6]
+    simp only [runL, hq6, hd, dropErrT_false]
     refine guard_limRel isLimit L hL site _ _ ((parkT_stream_stepRel isLimit
       (flatMapT (unwindRow S L site env e alias)) (flatMapT (unwindRow S LimEnv.unlimited site env e alias))
       (rowParks S L env [e]) (rowParks S LimEnv.unlimited env [e])
       (fun _ => rfl) (fun _ => rfl)
-      (fun _ => rfl) (fun _ => rfl) (fun _ x => by cases x <;> rfl) ?_ (fun _ e => ⟨[], rfl⟩) (fun _ _ => rfl)
+      (fun _ => rfl) (fun _ => rfl) (fun _ x => by cases x <;> rfl) ?_ (fun _ e => ⟨[], rfl⟩) (fun _ e => ⟨[], rfl⟩) (fun _ _ => rfl)
       (fun st x => rowParks_rel isLimit S L hS env _ st x)).run _ _ ⟨rfl, Or.inl rfl⟩ _ _ (ih _ _))
     intro st x hnp
     cases x with
@@ -815,8 +964,9 @@ theorem runL_limRel (isLimit : ε → Bool) (S : Sem χ ρ ν ε κ α) (Q : Qui
         simpa [rowParks] using hnp
       have hrel := unwindRow_limRel isLimit S L hL hS site env e alias st r hnp'
       exact ⟨hrel, fun ho => hrel.eq_of_allOk isLimit _ _ ho⟩
-  | expand f inp ih =>
+  | expand kind g inp ih =>
     intro site env
+    simp only [runL, hd, dropErrT_false]
     exact guard_limRel isLimit L hL site _ _
       ((flatMapT_stepRel isLimit _ _ (fun _ _ => .refl _ _)).run 0 _ _ (ih _ _))
   | skip n inp ih =>
@@ -842,7 +992,7 @@ theorem runL_limRel (isLimit : ε → Bool) (S : Sem χ ρ ν ε κ α) (Q : Qui
         (orderByFlushParks_rel isLimit S L hS env keys)).run _ _ ⟨rfl, rfl⟩ _ _ (ih _ _))
   | aggregate groupBy aggs inp ih =>
     intro site env
-    simp only [runL, hq6]
+    simp only [runL, hq6, hd, dropErrT_false]
     exact guard_limRel isLimit L hL site _ _
       ((parkT_block_stepRel isLimit _ _ (aggregateT_core isLimit S L hL hS site env groupBy aggs) _ _
         (fun st hnp => aggFinish_limRel isLimit S L hL hS site env groupBy aggs _ hnp)
@@ -858,16 +1008,18 @@ theorem runL_limRel (isLimit : ε → Bool) (S : Sem χ ρ ν ε κ α) (Q : Qui
       exact (StepRel0.same isLimit (distinctT S false) (fun _ e _ => ⟨[], rfl⟩)).run [] _ _ hcat
   | filterExists sub inp ihs ihi =>
     intro site env
+    simp only [runL, hd, dropErrT_false]
     exact guard_limRel isLimit L hL site _ _
       ((flatMapT_stepRel isLimit _ _ (fun k r => existsRow_limRel isLimit Q hq5 r _ _ (ihs _ _))).run 0 _ _ (ihi _ _))
   | cartesian l r ihl ihr =>
     intro site env
+    simp only [runL, hd, dropErrT_false, dropErrs_false]
     refine guard_limRel isLimit L hL site _ _
       ((flatMapT_stepRel isLimit _ _ (fun k lrow => ?_)).run 0 _ _ (ihl _ _))
     exact LimRel.map isLimit (joinItem S lrow) (fun r => ⟨_, rfl⟩) (fun e => rfl) _ _ (ihr _ _)
   | apply inp sub ihi ihs =>
     intro site env
-    simp only [runL]
+    simp only [runL, hd, dropErrT_false, dropErrs_false]
     apply guard_limRel isLimit L hL site
     cases ht : L.time (.inner site) 0 with
     | some e => exact LimRel.limit_error isLimit e _ _ (hL.time _ _ _ ht)
